@@ -162,3 +162,218 @@ Proof.
     + replace (8 <=? nb) with false by (symmetry; apply N.leb_gt; exact E1).
       apply Hgoal; [exact E1|exact Hjb|exact Hout|]. rewrite Hj. reflexivity.
 Qed.
+
+(* ================= sendNextCode: the masks and shifts read cs bits MSB-first from a 3-byte window ================= *)
+Lemma lzi_land_low : forall x j, N.land x (2 ^ j - 1) = x mod 2 ^ j.
+Proof. intros x j. rewrite <- N.land_ones. f_equal. rewrite N.ones_equiv. lia. Qed.
+
+Definition lzi_high_ok (m x : N) : bool := N.land x (255 - (2 ^ (8 - m) - 1)) / 2 ^ (8 - m) =? x / 2 ^ (8 - m).
+Lemma lzi_land_high : forall x m, x < 256 -> m <= 8 ->
+  N.land x (255 - (2 ^ (8 - m) - 1)) / 2 ^ (8 - m) = x / 2 ^ (8 - m).
+Proof.
+  intros x m Hx Hm.
+  assert (H : forallb (fun m => forallb (fun x => lzi_high_ok m x) (map N.of_nat (seq 0 256))) (map N.of_nat (seq 0 9)) = true)
+    by (vm_compute; reflexivity).
+  pose proof (small_sweep 9 _ H m ltac:(lia)) as H1. cbv beta in H1.
+  pose proof (small_sweep 256 _ H1 x ltac:(lia)) as H2. cbv beta in H2.
+  apply N.eqb_eq in H2. exact H2.
+Qed.
+
+(* the same computation without the masks *)
+Definition lzi_send_arith (x0 x1 x2 bit_pos cs : N) : N :=
+  let bfh := 8 - bit_pos in
+  let bfm0 := cs - bfh in
+  let bfl := if 8 <? bfm0 then bfm0 - 8 else 0 in
+  let bfm := if 8 <? bfm0 then 8 else bfm0 in
+  let code0 := (x0 mod 2 ^ bfh) * 2 ^ bfm + x1 / 2 ^ (8 - bfm) in
+  if 0 <? bfl then code0 * 2 ^ bfl + x2 / 2 ^ (8 - bfl) else code0.
+
+Lemma lzi_send_code_arith : forall x0 x1 x2 bit_pos cs, x1 < 256 -> x2 < 256 -> bit_pos <= 7 -> 9 <= cs <= 12 ->
+  lzi_send_code x0 x1 x2 bit_pos cs = lzi_send_arith x0 x1 x2 bit_pos cs.
+Proof.
+  intros x0 x1 x2 bit_pos cs H1 H2 Hb Hcs. unfold lzi_send_code, lzi_send_arith. cbv zeta.
+  rewrite lzi_land_low.
+  rewrite (lzi_land_high x1) by (try exact H1; destruct (N.ltb_spec 8 (cs - (8 - bit_pos))); lia).
+  rewrite (lzi_land_high x2) by (try exact H2; destruct (N.ltb_spec 8 (cs - (8 - bit_pos))); lia).
+  reflexivity.
+Qed.
+
+Ltac lzi_enum_bitpos_cs bit_pos cs Hb Hcs :=
+  assert (Hbe : bit_pos = 0 \/ bit_pos = 1 \/ bit_pos = 2 \/ bit_pos = 3 \/ bit_pos = 4 \/ bit_pos = 5 \/ bit_pos = 6 \/ bit_pos = 7) by lia;
+  assert (Hce : cs = 9 \/ cs = 10 \/ cs = 11 \/ cs = 12) by lia;
+  clear Hb Hcs;
+  destruct Hbe as [Hbe|[Hbe|[Hbe|[Hbe|[Hbe|[Hbe|[Hbe|Hbe]]]]]]]; destruct Hce as [Hce|[Hce|[Hce|Hce]]]; subst bit_pos cs.
+
+(* window of three bytes x0 x1 x2 read from bit bit_pos of x0: value of the 24 - bit_pos remaining bits *)
+Definition lzi_p3 (x0 x1 x2 bit_pos : N) : N := ((x0 mod 2 ^ (8 - bit_pos)) * 256 + x1) * 256 + x2.
+Definition lzi_p2 (x0 x1 bit_pos : N) : N := (x0 mod 2 ^ (8 - bit_pos)) * 256 + x1.
+
+Lemma lzi_send_window3 : forall x0 x1 x2 bit_pos cs, x0 < 256 -> x1 < 256 -> x2 < 256 -> bit_pos <= 7 -> 9 <= cs <= 12 ->
+  lzi_send_arith x0 x1 x2 bit_pos cs = lzi_p3 x0 x1 x2 bit_pos / 2 ^ (24 - bit_pos - cs) /\
+  lzi_p3 x0 x1 x2 bit_pos mod 2 ^ (24 - bit_pos - cs)
+  = (if bit_pos + cs <? 16 then (x1 mod 2 ^ (16 - bit_pos - cs)) * 256 + x2 else x2 mod 2 ^ (24 - bit_pos - cs)).
+Proof.
+  intros x0 x1 x2 bit_pos cs H0 H1 H2 Hb Hcs.
+  Ltac Zify.zify_post_hook ::= Z.to_euclidean_division_equations.
+  lzi_enum_bitpos_cs bit_pos cs Hb Hcs; unfold lzi_send_arith, lzi_p3; cbn; split; lia.
+Qed.
+Ltac Zify.zify_post_hook ::= idtac.
+
+(* ================= the 3-byte ring ================= *)
+Definition lzi_x0 (s : lzw_st) : N := ring s (lz_byte_pos s).
+Definition lzi_x1 (s : lzw_st) : N := ring s ((lz_byte_pos s + 1) mod 3).
+Definition lzi_x2 (s : lzw_st) : N := ring s ((lz_byte_pos s + 2) mod 3).
+
+Definition lzi_wf (s : lzw_st) : Prop :=
+  (exists b0 b1 b2, lz_buf s = [b0; b1; b2] /\ b0 < 256 /\ b1 < 256 /\ b2 < 256) /\
+  lz_byte_pos s < 3 /\ lz_bit_pos s <= 7.
+
+(* the a unread bits of the ring have value p: they start at bit bit_pos of byte byte_pos and end where the
+   next byte will be written *)
+Definition lzi_rr (s : lzw_st) (p a : N) : Prop :=
+  lz_bits_avail s = a /\
+  ((a = 0 /\ p = 0 /\ lz_bit_pos s = 0 /\ lz_next_char s = lz_byte_pos s) \/
+   (a = 8 - lz_bit_pos s /\ p = lzi_x0 s mod 2 ^ (8 - lz_bit_pos s) /\ lz_next_char s = (lz_byte_pos s + 1) mod 3) \/
+   (a = 16 - lz_bit_pos s /\ p = lzi_p2 (lzi_x0 s) (lzi_x1 s) (lz_bit_pos s) /\ lz_next_char s = (lz_byte_pos s + 2) mod 3) \/
+   (a = 24 - lz_bit_pos s /\ p = lzi_p3 (lzi_x0 s) (lzi_x1 s) (lzi_x2 s) (lz_bit_pos s) /\ lz_next_char s = lz_byte_pos s)).
+
+(* write(): the byte goes into the ring *)
+Definition lzi_put (s : lzw_st) (b : N) : lzw_st :=
+  {| lz_buf := set_nth (N.to_nat (lz_next_char s)) b (lz_buf s); lz_code_size := lz_code_size s;
+     lz_next_char := if lz_next_char s + 1 =? 3 then 0 else lz_next_char s + 1; lz_byte_pos := lz_byte_pos s; lz_bit_pos := lz_bit_pos s;
+     lz_bits_avail := lz_bits_avail s + 8; lz_eod := lz_eod s; lz_table := lz_table s;
+     lz_last_code := lz_last_code s |}.
+
+Lemma lzi_step_put : forall early s b,
+  lzw_step early s b = if lz_code_size s <=? lz_bits_avail s + 8 then lzw_send early (lzi_put s b) else (lzi_put s b, [], false).
+Proof. reflexivity. Qed.
+
+Ltac lzi_proj := cbn [lz_buf lz_code_size lz_next_char lz_byte_pos lz_bit_pos lz_bits_avail lz_eod lz_table lz_last_code] in *.
+
+Local Opaque N.sub N.pow.
+Lemma lzi_put_rr : forall s b p a, lzi_wf s -> lzi_rr s p a -> a <= 11 -> b < 256 ->
+  lzi_wf (lzi_put s b) /\ lzi_rr (lzi_put s b) (p * 256 + b) (a + 8).
+Proof.
+  intros s b p a Hwf Hrr Ha Hb.
+  destruct s as [buf cs nc bp bit av eod tbl last].
+  unfold lzi_wf, lzi_rr, lzi_put, lzi_x0, lzi_x1, lzi_x2, ring in *. lzi_proj.
+  destruct Hwf as ((b0 & b1 & b2 & Ebuf & H0 & H1 & H2) & Hbp & Hbit). subst buf.
+  assert (Hbpe : bp = 0 \/ bp = 1 \/ bp = 2) by lia.
+  Ltac Zify.zify_post_hook ::= Z.to_euclidean_division_equations.
+  destruct Hrr as [Hav [(?&?&?&?) | [(?&?&?) | [(?&?&?) | (?&?&?)]]]];
+  destruct Hbpe as [?|[?|?]]; subst; cbn in *; try lia;
+  (split; [split; [do 3 eexists; split; [reflexivity|]; repeat split; assumption | lia] | split; [lia|] ]).
+  all: unfold lzi_p2, lzi_p3.
+  all: change (Pos.to_nat 1) with 1%nat in *; change (Pos.to_nat 2) with 2%nat in *; cbn [nth set_nth].
+  all: first [ right; left; split; [lia|]; split; [first [reflexivity | change (2 ^ (8 - 0)) with 256; lia]|reflexivity]
+             | right; right; left; split; [lia|]; split; [reflexivity|reflexivity]
+             | right; right; right; split; [lia|]; split; [reflexivity|reflexivity] ].
+Qed.
+Local Transparent N.sub N.pow.
+Ltac Zify.zify_post_hook ::= idtac.
+
+(* sendNextCode: new read position *)
+Definition lzi_after_send (s : lzw_st) : lzw_st :=
+  let med := (lz_byte_pos s + 1) mod 3 in
+  let low := (lz_byte_pos s + 2) mod 3 in
+  let bfh := 8 - lz_bit_pos s in
+  let bfm0 := lz_code_size s - bfh in
+  let bfl := if 8 <? bfm0 then bfm0 - 8 else 0 in
+  let bfm := if 8 <? bfm0 then 8 else bfm0 in
+  let bp := if 0 <? bfl then low else med in
+  let bit := if 0 <? bfl then bfl else bfm in
+  let bp' := if bit =? 8 then (bp + 1) mod 3 else bp in
+  let bit' := if bit =? 8 then 0 else bit in
+  {| lz_buf := lz_buf s; lz_code_size := lz_code_size s; lz_next_char := lz_next_char s;
+     lz_byte_pos := bp'; lz_bit_pos := bit'; lz_bits_avail := lz_bits_avail s - lz_code_size s;
+     lz_eod := lz_eod s; lz_table := lz_table s; lz_last_code := lz_last_code s |}.
+
+Lemma lzi_send_eq : forall early s,
+  lzw_send early s = lzw_handle early (lzi_after_send s)
+                       (lzi_send_code (lzi_x0 s) (lzi_x1 s) (lzi_x2 s) (lz_bit_pos s) (lz_code_size s)).
+Proof. reflexivity. Qed.
+
+Lemma lzi_ring_lt : forall b0 b1 b2 i, b0 < 256 -> b1 < 256 -> b2 < 256 -> nth i [b0; b1; b2] 0 < 256.
+Proof. intros b0 b1 b2 i H0 H1 H2. destruct i as [|[|[|i]]]; cbn [nth]; try assumption; destruct i; lia. Qed.
+
+Lemma lzi_send_window2 : forall x0 x1 x2 bit_pos cs, x0 < 256 -> x1 < 256 -> x2 < 256 -> bit_pos <= 7 -> 9 <= cs <= 12 ->
+  bit_pos + cs <= 16 ->
+  lzi_send_arith x0 x1 x2 bit_pos cs = lzi_p2 x0 x1 bit_pos / 2 ^ (16 - bit_pos - cs) /\
+  lzi_p2 x0 x1 bit_pos mod 2 ^ (16 - bit_pos - cs) = x1 mod 2 ^ (16 - bit_pos - cs).
+Proof.
+  intros x0 x1 x2 bit_pos cs H0 H1 H2 Hb Hcs Hle.
+  Ltac Zify.zify_post_hook ::= Z.to_euclidean_division_equations.
+  lzi_enum_bitpos_cs bit_pos cs Hb Hcs; try (exfalso; clear - Hle; lia); unfold lzi_send_arith, lzi_p2; cbn; split; lia.
+Qed.
+Ltac Zify.zify_post_hook ::= idtac.
+
+(* where sendNextCode leaves the read position *)
+Lemma lzi_after_send_pos : forall s, lz_byte_pos s < 3 -> lz_bit_pos s <= 7 -> 9 <= lz_code_size s <= 12 ->
+  lz_byte_pos (lzi_after_send s)
+  = (if lz_bit_pos s + lz_code_size s <? 16 then (lz_byte_pos s + 1) mod 3 else (lz_byte_pos s + 2) mod 3) /\
+  lz_bit_pos (lzi_after_send s)
+  = (if lz_bit_pos s + lz_code_size s <? 16 then lz_bit_pos s + lz_code_size s - 8 else lz_bit_pos s + lz_code_size s - 16).
+Proof.
+  intros s Hbp Hbit Hcs. destruct s as [buf cs nc bp bit av eod tbl last]. lzi_proj.
+  assert (Hbpe : bp = 0 \/ bp = 1 \/ bp = 2) by lia. clear Hbp.
+  lzi_enum_bitpos_cs bit cs Hbit Hcs; destruct Hbpe as [?|[?|?]]; subst bp; split; vm_compute; reflexivity.
+Qed.
+
+Lemma lzi_after_send_same : forall s,
+  lz_buf (lzi_after_send s) = lz_buf s /\ lz_next_char (lzi_after_send s) = lz_next_char s /\
+  lz_bits_avail (lzi_after_send s) = lz_bits_avail s - lz_code_size s.
+Proof. intros s. repeat split; reflexivity. Qed.
+
+Ltac lzi_mod3 :=
+  change ((0 + 1) mod 3) with 1 in *; change ((0 + 2) mod 3) with 2 in *;
+  change ((1 + 1) mod 3) with 2 in *; change ((1 + 2) mod 3) with 0 in *;
+  change ((2 + 1) mod 3) with 0 in *; change ((2 + 2) mod 3) with 1 in *;
+  change (N.to_nat 0) with 0%nat in *; change (N.to_nat 1) with 1%nat in *; change (N.to_nat 2) with 2%nat in *;
+  cbn [nth] in *.
+
+Ltac lzi_exp_eq :=
+  unfold lzi_p2;
+  match goal with |- ?lhs = ?rhs =>
+    match lhs with context [2 ^ ?e0] => match rhs with context [2 ^ ?e] => replace e with e0 by lia end end
+  end; reflexivity.
+
+Ltac lzi_rr_pick :=
+  first [ left; split; [lia|]; split; [match goal with |- ?x mod 2 ^ ?e = 0 => replace e with 0 by lia; apply N.mod_1_r end|]; split; lia
+        | right; left; split; [lia|]; split; [lzi_exp_eq|lia]
+        | right; right; left; split; [lia|]; split; [lzi_exp_eq|lia] ].
+
+(* the code read is the top cs bits of the a unread bits; the rest stays unread *)
+Lemma lzi_send_rr : forall s p a, lzi_wf s -> lzi_rr s p a ->
+  9 <= lz_code_size s <= 12 -> lz_code_size s <= a -> a <= 19 ->
+  lzi_send_code (lzi_x0 s) (lzi_x1 s) (lzi_x2 s) (lz_bit_pos s) (lz_code_size s) = p / 2 ^ (a - lz_code_size s) /\
+  lzi_wf (lzi_after_send s) /\ lzi_rr (lzi_after_send s) (p mod 2 ^ (a - lz_code_size s)) (a - lz_code_size s).
+Proof.
+  intros s p a Hwf Hrr Hcs Hle Ha.
+  pose proof (lzi_after_send_pos s (proj1 (proj2 Hwf)) (proj2 (proj2 Hwf)) Hcs) as [Pbp Pbit].
+  destruct (lzi_after_send_same s) as (Sb & Sn & Sa).
+  unfold lzi_wf, lzi_rr, lzi_x0, lzi_x1, lzi_x2, ring. rewrite Pbp, Pbit, Sb, Sn, Sa. clear Pbp Pbit Sb Sn Sa.
+  unfold lzi_wf, lzi_rr, lzi_x0, lzi_x1, lzi_x2, ring in Hwf, Hrr.
+  destruct s as [buf cs nc bp bit av eod tbl last]. lzi_proj.
+  destruct Hwf as ((b0 & b1 & b2 & Ebuf & H0 & H1 & H2) & Hbp & Hbit). subst buf.
+  rewrite lzi_send_code_arith by (try apply lzi_ring_lt; assumption).
+  assert (Hbpe : bp = 0 \/ bp = 1 \/ bp = 2) by lia.
+  destruct Hrr as [Hav [(?&?&?&?) | [(?&?&?) | [(Ea&Ep&En) | (Ea&Ep&En)]]]]; try lia.
+  - (* two bytes unread *)
+    assert (Hle16 : bit + cs <= 16) by lia.
+    destruct Hbpe as [?|[?|?]]; subst bp; lzi_mod3;
+    match type of Ep with _ = lzi_p2 ?y0 ?y1 _ =>
+      match goal with |- lzi_send_arith _ _ ?y2 _ _ = _ /\ _ =>
+        destruct (lzi_send_window2 y0 y1 y2 bit cs ltac:(assumption) ltac:(assumption) ltac:(assumption) Hbit Hcs Hle16) as [Wc Wm] end end;
+    subst p a av; (split; [exact Wc|]); rewrite Wm;
+    destruct (N.ltb_spec (bit + cs) 16);
+    (split; [split; [do 3 eexists; split; [reflexivity|]; repeat split; assumption | split; [reflexivity || lia | lia]]|]);
+    (split; [lia|]); lzi_mod3; lzi_rr_pick.
+  - (* three bytes unread *)
+    subst nc. destruct Hbpe as [?|[?|?]]; subst bp; lzi_mod3;
+    match type of Ep with _ = lzi_p3 ?y0 ?y1 ?y2 _ =>
+        destruct (lzi_send_window3 y0 y1 y2 bit cs ltac:(assumption) ltac:(assumption) ltac:(assumption) Hbit Hcs) as [Wc Wm] end;
+    subst p a av; (split; [exact Wc|]); rewrite Wm;
+    destruct (N.ltb_spec (bit + cs) 16);
+    (split; [split; [do 3 eexists; split; [reflexivity|]; repeat split; assumption | split; [reflexivity || lia | lia]]|]);
+    (split; [lia|]); lzi_mod3; lzi_rr_pick.
+Qed.
